@@ -118,7 +118,8 @@ impl<const N: usize, T: Debug + Clone + 'static> IntoIterDyn<T> for IntoIter<N, 
         Box::new(self.clone())
     }
     fn collect_vec(self: Box<Self>) -> Vec<T> {
-        (*self).collect()
+        // bounded: a broken length bookkeeping must not turn into an endless collection
+        (*self).take(N + 2).collect()
     }
     fn nth(&mut self, k: usize) -> Option<T> {
         Iterator::nth(self, k)
